@@ -16,9 +16,9 @@ var c12values = []struct {
 	lex  []string
 }{
 	{"i8", []string{"-128", "127", "0"}}, {"i16", []string{"-32768", "32767"}}, {"i32", []string{"-2147483648", "2147483647"}},
-	{"i64", []string{"-9223372036854775808", "9223372036854775807", "-1"}},
+	{"i64", []string{"-9223372036854775808", "9223372036854775807", "-1", "-9007199254740993"}},
 	{"u8", []string{"0", "255"}}, {"u16", []string{"65535"}}, {"u32", []string{"4294967295", "7"}},
-	{"u64", []string{"18446744073709551615", "9223372036854775808", "42"}},
+	{"u64", []string{"18446744073709551615", "9223372036854775808", "42", "9007199254740993"}},
 	{"dec1", []string{"-1.5", "0.1", "3.0"}}, {"dec2", []string{"1.50", "-0.05", "12.34"}}, {"dec18", []string{"0.000000000000000001", "-9.223372036854775808"}},
 	{"bool", []string{"true", "false"}}, {"emp", []string{""}},
 	{"en", []string{"up", "down", "two words"}}, {"idr", []string{"kind-a", "kind-b", "kind-x"}},
@@ -41,7 +41,7 @@ func runC12(rc *sim.RunCtx) {
 		rc.AddSim(1)
 		v := c12values[t.Choose(len(c12values))]
 		lex := v.lex[t.Choose(len(v.lex))]
-		form := []string{"typed", "string", "json", "json_ietf"}[t.Choose(4)]
+		form := []string{"typed", "string", "json", "json_ietf", "jsonleaf", "jsonleaf_ietf"}[t.Choose(6)]
 		p := world.P(world.E("types"), world.E(v.leaf))
 		l := NewMLeaf(si, p, lex)
 		mform := form
@@ -144,7 +144,7 @@ func runC12(rc *sim.RunCtx) {
 func init() {
 	Register(&sim.Check{
 		ID: "C12", Level: "exploration", Run: runC12,
-		Rule: "per run 2-6 single-leaf transactions over the types container of vsim: one leaf per YANG built-in type (int8..int64, uint8..uint64 incl. values above 2^63, decimal64 with fraction-digits 1/2/18 incl. negative and fractional, boolean, empty, enumeration incl. a name with a space, identityref from two modules, union of uint8|enum|string, string with separators, leaf-lists of string/uint32/enum) x boundary and interior values x input form (typed value, string, JSON, JSON_IETF). After each accepted transaction the value at the direct device (proto view), in the intended store, and returned by GetData in STRING/PROTO/JSON/JSON_IETF must denote the supplied datum in the harness's abstract value domain; a verbatim re-submission must send nothing. Every step is non-trivial; distinct = (leaf, value, form).",
+		Rule: "per run 2-6 single-leaf transactions over the types container of vsim: one leaf per YANG built-in type (int8..int64, uint8..uint64 incl. values above 2^63, decimal64 with fraction-digits 1/2/18 incl. negative and fractional, boolean, empty, enumeration incl. a name with a space, identityref from two modules, union of uint8|enum|string, string with separators, leaf-lists of string/uint32/enum) x boundary and interior values x input form (typed value, string, JSON / JSON_IETF document at the root, JSON / JSON_IETF scalar or array on the leaf's own path). After each accepted transaction the value at the direct device (proto view), in the intended store, and returned by GetData in STRING/PROTO/JSON/JSON_IETF must denote the supplied datum in the harness's abstract value domain; a verbatim re-submission must send nothing. Every step is non-trivial; distinct = (leaf, value, form).",
 		Real: append(append([]string{}, realCore...), "pkg/utils converter.go/value.go/leaf_convert.go, pkg/datastore/data_rpc.go validateUpdate"), Stub: stubCore,
 		Assume:       []string{"only the compositions the running system performs are checked (client -> datastore -> store -> device proto view -> GetData), not the cross product of pure converters; XML text from a device is not covered"},
 		QuickSeconds: 30, ThoroughSeconds: 420,
